@@ -104,6 +104,12 @@ EXTRA_PAIRS = [
     ("NE1", ["C10"]),    # a reused slot that keeps the deleted file's start cluster is a live entry on free clusters
     ("SK5", ["C05"]),    # positions the translation refuses are capacity that cannot be used: the volume fills up early
     ("SK1", ["C07"]),    # the append modes position the handle with seek_from_end(0): it must succeed for every file length
+    # --- round 11
+    ("AC1", ["C04"]),    # an allocation linked behind a cluster that is not the chain's tail rewrites a FAT entry the call does not own
+    ("MT2", ["C05"]),    # the cluster count fixed at mount is the capacity the volume hands out
+    ("WT1", ["C05"]),    # an entry / data block that is not written back leaves allocated clusters ownerless, or reports data as written that is not on the medium
+    ("MD3", ["C02"]),    # a create that is not refused for an existing name leaves two entries of that name on the medium
+    ("MD8", ["C03"]),    # an append handle whose cursor does not name the cluster of its offset writes into the wrong cluster and records a length the chain does not cover
 ]
 EXTRA = {}
 for _k, _v in EXTRA_PAIRS:      # a rule may be listed several times (one line per reason): the lists add up
